@@ -106,6 +106,14 @@ fn check_text(prop: &str, text: &str, rep: &mut Report) {
             },
             "C07" => if let (Err(e), Err(re)) = (&real, &r) {
                 if !err_matches(e, re) { rep.violation("error position/character == first offending", "error", format!("{:?}", text), format!("real={:?} reference={:?}", e, re)); }
+                // the accessors report the same place: `position()` is the offset the error carries (the
+                // start of its span), `span()` starts there, and both ends are character boundaries of the input
+                let (pos, sp) = (e.position(), e.span());
+                let carried = match e { Error::Unexpected(p, _) => *p, Error::InvalidUtf8(p) => *p, Error::Stream(p, _) => *p, Error::InvalidUnicodeCodePoint(s, _) => s.start(), Error::MissingLowSurrogate(s, _) => s.start(), Error::InvalidLowSurrogate(s, _, _) => s.start() };
+                let carried_end = match e { Error::InvalidUnicodeCodePoint(s, _) => s.end(), Error::MissingLowSurrogate(s, _) => s.end(), Error::InvalidLowSurrogate(s, _, _) => s.end(), _ => carried };
+                if pos != carried || sp.start() != carried || sp.end() != carried_end || !(sp.end() <= text.len() && text.is_char_boundary(pos) && text.is_char_boundary(sp.end())) {
+                    rep.violation("error position/character == first offending", "error-accessors", format!("{:?}", text), format!("error={:?} position()={} span()=[{}, {})", e, pos, sp.start(), sp.end()));
+                }
             },
             "C12" => {
                 if !verdict_ok { rep.violation("lenient options accept exactly the documented relaxations", "verdict", format!("{:?} opts={:?}", text, o), format!("real_ok={} reference_ok={}", real.is_ok(), r.is_ok())); }
@@ -273,7 +281,9 @@ pub fn run(prop: &str, thorough: bool, seed: u64, rep: &mut Report) {
     for_each(&sur, if thorough { 5 } else { 4 }, |s| { let t = format!("\"{}", s); check_text(prop, &t, rep); let t2 = format!("{{\"{}:0}}", s); check_text(prop, &t2, rep); });
     // one-character edits of the literals and of a small corpus
     let corpus = ["true", "false", "null", "[true,false,null]", "{\"k\":[1.5e+3,{}],\"k\":\"\\u00e9\\n\"} ", " [ ] ", "{ }", "[[],{}]", "-0.0e-0", "[{\"a\":1},2]", "{\"a\":[1,{\"b\":[]}],\"c\":{}}"];
-    let edits: Vec<char> = "tfnulrsae[]{},:\" 01-.+Ee\\x\u{e9}".chars().collect();
+    // (the blanks: JSON's four, and characters that Rust's `is_ascii_whitespace` / `is_whitespace` / `trim`
+    //  treat as blank but JSON does not -- form feed, vertical tab, NEL, NBSP, U+2028, BOM, U+3000)
+    let edits: Vec<char> = "tfnulrsae[]{},:\" 01-.+Ee\\x\u{e9}\t\n\r\u{c}\u{b}\u{85}\u{a0}\u{2028}\u{feff}\u{3000}".chars().collect();
     for doc in corpus {
         let cs: Vec<char> = doc.chars().collect();
         for i in 0..=cs.len() {
@@ -311,6 +321,17 @@ pub fn run(prop: &str, thorough: bool, seed: u64, rep: &mut Report) {
                 if idx[k] + 1 < balpha.len() { idx[k] += 1; for j in k + 1..idx.len() { idx[j] = 0; } break; }
             }
             if done { break; }
+        }
+        // a syntax error followed -- within the next few bytes -- by ill-formed UTF-8: the syntax error is
+        // the one to report (a parser that reads ahead before deciding must not let the later bytes win)
+        for doc in ["true", "false", "null", "[true,false]", "{\"a\":null}", "-1.5e3", "\"ab\\n\""] {
+            let b = doc.as_bytes();
+            for i in 0..b.len() { for e in [b'x', b'1', b' ', b'"'] { if b[i] == e { continue; }
+                for j in i + 1..=(i + 5).min(b.len()) { for bad in [&[0xFFu8][..], &[0xC0, 0x80], &[0xE2, 0x82]] {
+                    let mut t = b.to_vec(); t[i] = e; let tail = t.split_off(j); t.extend_from_slice(bad); t.extend_from_slice(&tail);
+                    check_bytes(prop, &t, rep);
+                } }
+            } }
         }
         for doc in [&b"\xEF\xBB\xBF1"[..], b"1\xC0\xA0", b"\"\xED\xA0\x80\"", b"\"\xF4\x90\x80\x80\"", b"[\"\xE2\x82\xAC\", 1]", b"{\"\xC3\xA9\":\"\xF0\x9F\x98\x80\"}"] { check_bytes(prop, doc, rep); }
         // every boundary of the UTF-8 length classes as a raw character inside a document: the
